@@ -52,7 +52,9 @@ def summary(cls, res):
     if not res["solved"]:
         return ("unsolved",)
     if cls == "MinErrorFlow":
-        return ("solved", round(res["sol"]["objective_value"], 6))
+        # all three reported numbers: the solution's objective_value and error, and get_objective_value()
+        r6 = lambda x: round(x, 6) if isinstance(x, (int, float)) else str(x)
+        return ("solved", r6(res["sol"].get("objective_value")), r6(res["sol"].get("error")), r6(res.get("obj")))
     if cls.startswith("Min"):
         return ("solved", len(models.routes_of(res["sol"])))
     if cls in W.ERR:
